@@ -24,7 +24,8 @@ theorem safeMul_words {sz m : Nat} (h : safeMul (toWordSize sz) 32 = (m, false))
   split at h1 <;> split at h2 <;> omega
 
 theorem calc_uint {off : Word} {len sz : Nat} (hlen : 0 < len) (hlen64 : len < 2 ^ 64)
-    (h : calcMemSize64WithUint off len = (sz, false)) : lo64 off + len = sz ∧ sz < 2 ^ 64 := by
+    (h : calcMemSize64WithUint off len = (sz, false)) :
+    lo64 off + len = sz ∧ sz < 2 ^ 64 ∧ isUint64 off = true := by
   have hl := lo64_lt off
   have hne : len ≠ 0 := by omega
   simp only [calcMemSize64WithUint, hne, if_false] at h
@@ -34,15 +35,23 @@ theorem calc_uint {off : Word} {len sz : Nat} (hlen : 0 < len) (hlen64 : len < 2
     have h1 := congrArg Prod.fst h
     have h2 := congrArg Prod.snd h
     simp only [Bool.false_eq_true, if_false, decide_eq_false_iff_not] at h1 h2
-    omega
+    refine ⟨by omega, by omega, ?_⟩
+    simpa using hu
 
 theorem calc_two {off l : Word} {sz : Nat} (hl0 : lo64 l ≠ 0)
-    (h : calcMemSize64 off l = (sz, false)) : lo64 off + lo64 l = sz ∧ sz < 2 ^ 64 := by
+    (h : calcMemSize64 off l = (sz, false)) :
+    lo64 off + lo64 l = sz ∧ sz < 2 ^ 64 ∧ isUint64 off = true := by
   unfold calcMemSize64 at h
   split at h
   · simp at h
   · exact calc_uint (by omega) (lo64_lt l) h
 
+theorem calc_two_len {off l : Word} {sz : Nat} (h : calcMemSize64 off l = (sz, false)) :
+    isUint64 l = true := by
+  unfold calcMemSize64 at h
+  split at h
+  · simp at h
+  · rename_i hu; simpa using hu
 
 theorem pre_mem_ge (f : Frame) (gas2 last ms sz : Nat)
     (h : safeMul (toWordSize sz) 32 = (ms, false)) (hsz : 0 < sz) :
@@ -76,11 +85,19 @@ theorem slotOK_parts {i : OpInfo} (h : slotOK i = true) (hno : isOther i.exec = 
     arity i.exec ≤ i.minStack ∧ i.memSize = expectedMem i.exec ∧
     (∀ n, i.exec = .dup n → 0 < n) ∧ (∀ n, i.exec = .swap n → 0 < n) := by
   unfold slotOK at h
-  simp only [hno, Bool.false_or, Bool.and_eq_true, decide_eq_true_eq, beq_iff_eq] at h
+  simp only [hno, Bool.false_and, Bool.false_or, Bool.and_eq_true, decide_eq_true_eq, beq_iff_eq] at h
   obtain ⟨⟨⟨h1, h2⟩, _⟩, h4⟩ := h
   refine ⟨h1, h2, ?_, ?_⟩
   · intro n hn; rw [hn] at h4; simpa using h4
   · intro n hn; rw [hn] at h4; simpa using h4
+
+theorem slotOK_other {i : OpInfo} (h : slotOK i = true) (ho : isOther i.exec = true) :
+    i.memSize = .none ∨ ∃ n, i.memSize = .other n := by
+  unfold slotOK at h
+  have harity : ¬ (isOther i.exec = false) := by simp [ho]
+  cases hm : i.memSize <;> simp [ho, hm] at h ⊢
+  all_goals (cases he : i.exec <;> simp [he, isOther] at ho)
+  all_goals (simp [he, expectedMem] at h)
 
 /-- No Go panic for every instruction that touches no memory (stack, arithmetic, PUSH/DUP/SWAP,
 jumps, PC/MSIZE/GAS, calldata/code size and load). -/
@@ -105,5 +122,290 @@ theorem step_no_goPanic_nomem (H : Bytes → Bytes) (t : Table) (p : GasParams) 
       rw [hm] at hme
       exact execOp_no_panic_simple H info.exec (preExec f gas2 last ms) hme.symm
         (by simp only [preExec]; omega) hd hsw hex
+
+
+/-! ### memory-touching functions -/
+
+theorem getPtr_ne_none (m : Bytes) (off size : Nat) (h : size = 0 ∨ off + size ≤ m.length) :
+    Mem.getPtr m off size ≠ none := by
+  unfold Mem.getPtr
+  split
+  · simp
+  · split
+    · split
+      · simp
+      · omega
+    · simp
+
+theorem set_ne_none (m : Bytes) (off size : Nat) (v : Bytes) (h : size = 0 ∨ off + size ≤ m.length) :
+    Mem.set m off size v ≠ none := by
+  unfold Mem.set
+  split
+  · simp
+  · split
+    · omega
+    · simp
+
+theorem set32_ne_none (m : Bytes) (off : Nat) (v : Word) (h : off + 32 ≤ m.length) :
+    Mem.set32 m off v ≠ none := by
+  unfold Mem.set32
+  split
+  · omega
+  · simp
+
+theorem setByte_ne_none (m : Bytes) (off : Nat) (b : UInt8) (h : off + 1 ≤ m.length) :
+    Mem.setByte m off b ≠ none := by
+  unfold Mem.setByte
+  split
+  · simp
+  · omega
+
+theorem copy_ne_none (m : Bytes) (dst src len : Nat)
+    (h : len = 0 ∨ (src + len ≤ m.length ∧ dst ≤ m.length)) : Mem.copy m dst src len ≠ none := by
+  unfold Mem.copy
+  split
+  · simp
+  · split
+    · omega
+    · simp
+
+/-- what the interpreter's resize guarantees for an access described by `calcMemSize64 off l` -/
+theorem cover_two {info : OpInfo} {f : Frame} {ms : Nat} (gas2 last : Nat) {off l : Word}
+    (hms : MemSized info f.stack ms)
+    (hfn : memorySizeOf info.memSize f.stack =
+      .size (calcMemSize64 off l).1 (calcMemSize64 off l).2) :
+    isUint64 l = true ∧
+    (lo64 l = 0 ∨ (isUint64 off = true ∧ lo64 off + lo64 l ≤ (preExec f gas2 last ms).mem.length)) := by
+  rcases hms with ⟨h1, _⟩ | ⟨sz, h1, h2⟩
+  · rw [hfn] at h1; simp at h1
+  · rw [hfn] at h1
+    simp only [MemSizeResult.size.injEq] at h1
+    have hc : calcMemSize64 off l = (sz, false) := by
+      rw [← h1.1, ← h1.2]
+    refine ⟨calc_two_len hc, ?_⟩
+    by_cases hl0 : lo64 l = 0
+    · exact Or.inl hl0
+    · right
+      obtain ⟨e1, _, e3⟩ := calc_two hl0 hc
+      refine ⟨e3, ?_⟩
+      have hl := Nat.pos_of_ne_zero hl0
+      have := pre_mem_ge f gas2 last ms sz h2 (by omega)
+      omega
+
+theorem cover_one {info : OpInfo} {f : Frame} {ms : Nat} (gas2 last : Nat) {off : Word} {len : Nat}
+    (hlen : 0 < len) (hlen64 : len < 2 ^ 64)
+    (hms : MemSized info f.stack ms)
+    (hfn : memorySizeOf info.memSize f.stack =
+      .size (calcMemSize64WithUint off len).1 (calcMemSize64WithUint off len).2) :
+    lo64 off + len ≤ (preExec f gas2 last ms).mem.length := by
+  rcases hms with ⟨h1, _⟩ | ⟨sz, h1, h2⟩
+  · rw [hfn] at h1; simp at h1
+  · rw [hfn] at h1
+    simp only [MemSizeResult.size.injEq] at h1
+    have hc : calcMemSize64WithUint off len = (sz, false) := by
+      rw [← h1.1, ← h1.2]
+    obtain ⟨e1, _, _⟩ := calc_uint hlen hlen64 hc
+    have := pre_mem_ge f gas2 last ms sz h2 (by omega)
+    omega
+
+theorem preExec_stack (f : Frame) (a b c : Nat) : (preExec f a b c).stack = f.stack := rfl
+
+/-- the ten memory-touching `execute` functions never reach a panic branch after the resize -/
+theorem execOp_no_panic_mem (H : Bytes → Bytes) (info : OpInfo) (f : Frame) (gas2 last ms : Nat)
+    (hmem : info.memSize = expectedMem info.exec) (hne : expectedMem info.exec ≠ .none)
+    (har : arity info.exec ≤ f.stack.length) (hms : MemSized info f.stack ms) :
+    execOp H info.exec (preExec f gas2 last ms) ≠ .err .goPanic := by
+  generalize hg : preExec f gas2 last ms = g
+  have hgs : g.stack = f.stack := by rw [← hg]; rfl
+  have hgm : g.mem = (preExec f gas2 last ms).mem := by rw [hg]
+  cases he : info.exec <;> simp only [he, expectedMem, ne_eq, not_true_eq_false, reduceCtorEq,
+    not_false_eq_true] at hne <;> simp only [he, arity] at har
+  -- opSha3
+  · rcases hs : f.stack with _ | ⟨offset, _ | ⟨size, rest⟩⟩ <;> simp only [hs, List.length_cons, List.length_nil] at har <;> try omega
+    have hc := cover_two gas2 last (off := offset) (l := size) hms
+      (by rw [hmem, he]; simp [expectedMem, memorySizeOf, hs])
+    simp only [execOp, hgs, hs]
+    cases hr : Mem.getPtr g.mem (lo64 offset) (lo64 size) with
+    | some d => simp
+    | none =>
+      exfalso
+      refine getPtr_ne_none _ _ _ ?_ hr
+      rw [hgm]; rcases hc.2 with h | h
+      · exact Or.inl h
+      · exact Or.inr h.2
+  · rcases hs : f.stack with _ | ⟨a, _ | ⟨b, _ | ⟨c, rest⟩⟩⟩ <;> simp only [hs, List.length_cons, List.length_nil] at har <;> try omega
+    have hc := cover_two gas2 last (off := a) (l := c) hms
+      (by rw [hmem, he]; simp [expectedMem, memorySizeOf, hs])
+    simp only [execOp, hgs, hs]
+    split
+    · simp
+    · rename_i hr
+      exfalso
+      refine set_ne_none _ _ _ _ ?_ hr
+      rw [hgm]; rcases hc.2 with h | h
+      · exact Or.inl h
+      · exact Or.inr h.2
+  · rcases hs : f.stack with _ | ⟨a, _ | ⟨b, _ | ⟨c, rest⟩⟩⟩ <;> simp only [hs, List.length_cons, List.length_nil] at har <;> try omega
+    have hc := cover_two gas2 last (off := a) (l := c) hms
+      (by rw [hmem, he]; simp [expectedMem, memorySizeOf, hs])
+    simp only [execOp, hgs, hs]
+    split
+    · simp
+    · rename_i hr
+      exfalso
+      refine set_ne_none _ _ _ _ ?_ hr
+      rw [hgm]; rcases hc.2 with h | h
+      · exact Or.inl h
+      · exact Or.inr h.2
+  -- opReturnDataCopy
+  · rcases hs : f.stack with _ | ⟨a, _ | ⟨b, _ | ⟨c, rest⟩⟩⟩ <;> simp only [hs, List.length_cons, List.length_nil] at har <;> try omega
+    have hc := cover_two gas2 last (off := a) (l := c) hms
+      (by rw [hmem, he]; simp [expectedMem, memorySizeOf, hs])
+    simp only [execOp, hgs, hs]
+    have hcu : isUint64 c = true := hc.1
+    by_cases hbu : isUint64 b = true
+    · have hb : lo64 b = b.toNat := lo64_of_isUint64 b hbu
+      have hcn : lo64 c = c.toNat := lo64_of_isUint64 c hcu
+      have hb64 : b.toNat < 2 ^ 64 := by simpa [isUint64] using hbu
+      have hc64 : c.toNat < 2 ^ 64 := by simpa [isUint64] using hcu
+      have hend : (add b c).toNat = b.toNat + c.toNat := by
+        simp only [add, BitVec.toNat_add]; apply Nat.mod_eq_of_lt; omega
+      intro hcontra
+      split at hcontra
+      · simp at hcontra
+      · split at hcontra
+        · simp at hcontra
+        · rename_i hov
+          have heu : isUint64 (add b c) = true := by
+            cases hh : isUint64 (add b c)
+            · simp [hh] at hov
+            · rfl
+          have hle : lo64 (add b c) = b.toNat + c.toNat := by
+            rw [lo64_of_isUint64 _ heu, hend]
+          split at hcontra
+          · rename_i hgt; rw [hle, hb] at hgt; omega
+          · split at hcontra
+            · simp at hcontra
+            · rename_i hr
+              refine set_ne_none _ _ _ _ ?_ hr
+              rw [hgm]; rcases hc.2 with h | h
+              · exact Or.inl h
+              · exact Or.inr h.2
+    · simp [hbu]
+  -- opMload
+  · rcases hs : f.stack with _ | ⟨a, rest⟩ <;> simp only [hs, List.length_cons, List.length_nil] at har <;> try omega
+    have hc := cover_one gas2 last (off := a) (len := 32) (by omega) (by omega) hms
+      (by rw [hmem, he]; simp [expectedMem, memorySizeOf, hs])
+    simp only [execOp, hgs, hs]
+    split
+    · simp
+    · rename_i hr
+      exfalso
+      exact getPtr_ne_none _ _ _ (Or.inr (by rw [hgm]; exact hc)) hr
+  -- opMstore
+  · rcases hs : f.stack with _ | ⟨a, _ | ⟨b, rest⟩⟩ <;> simp only [hs, List.length_cons, List.length_nil] at har <;> try omega
+    have hc := cover_one gas2 last (off := a) (len := 32) (by omega) (by omega) hms
+      (by rw [hmem, he]; simp [expectedMem, memorySizeOf, hs])
+    simp only [execOp, hgs, hs]
+    split
+    · simp
+    · rename_i hr
+      exfalso
+      exact set32_ne_none _ _ _ (by rw [hgm]; exact hc) hr
+  -- opMstore8
+  · rcases hs : f.stack with _ | ⟨a, _ | ⟨b, rest⟩⟩ <;> simp only [hs, List.length_cons, List.length_nil] at har <;> try omega
+    have hc := cover_one gas2 last (off := a) (len := 1) (by omega) (by omega) hms
+      (by rw [hmem, he]; simp [expectedMem, memorySizeOf, hs])
+    simp only [execOp, hgs, hs]
+    split
+    · simp
+    · rename_i hr
+      exfalso
+      exact setByte_ne_none _ _ _ (by rw [hgm]; exact hc) hr
+  -- opMcopy
+  · rcases hs : f.stack with _ | ⟨a, _ | ⟨b, _ | ⟨c, rest⟩⟩⟩ <;> simp only [hs, List.length_cons, List.length_nil] at har <;> try omega
+    have hc := cover_two gas2 last (off := if gt b a then b else a) (l := c) hms
+      (by rw [hmem, he]; simp [expectedMem, memorySizeOf, hs])
+    simp only [execOp, hgs, hs]
+    split
+    · simp
+    · rename_i hr
+      exfalso
+      refine copy_ne_none _ _ _ _ ?_ hr
+      rw [hgm]; rcases hc.2 with h | ⟨hu, h⟩
+      · exact Or.inl h
+      · right
+        by_cases hgtb : gt b a = true
+        · simp only [hgtb, if_true] at hu h
+          have hbn : lo64 b = b.toNat := lo64_of_isUint64 b hu
+          have : a.toNat < b.toNat := by simpa [gt, lt] using hgtb
+          have hb64 : b.toNat < 2 ^ 64 := by simpa [isUint64] using hu
+          have han : lo64 a = a.toNat := by simp only [lo64]; apply Nat.mod_eq_of_lt; omega
+          omega
+        · have hgf : gt b a = false := by
+            cases hh : gt b a
+            · rfl
+            · exact absurd hh hgtb
+          simp only [hgf, Bool.false_eq_true, if_false] at hu h
+          have han : lo64 a = a.toNat := lo64_of_isUint64 a hu
+          have : ¬ a.toNat < b.toNat := by simpa [gt, lt] using hgf
+          have ha64 : a.toNat < 2 ^ 64 := by simpa [isUint64] using hu
+          have hbn : lo64 b = b.toNat := by simp only [lo64]; apply Nat.mod_eq_of_lt; omega
+          omega
+  · rcases hs : f.stack with _ | ⟨a, _ | ⟨b, rest⟩⟩ <;> simp only [hs, List.length_cons, List.length_nil] at har <;> try omega
+    have hc := cover_two gas2 last (off := a) (l := b) hms
+      (by rw [hmem, he]; simp [expectedMem, memorySizeOf, hs])
+    simp only [execOp, hgs, hs]
+    split
+    · simp
+    · rename_i hr
+      exfalso
+      refine getPtr_ne_none _ _ _ ?_ hr
+      rw [hgm]; rcases hc.2 with h | h
+      · exact Or.inl h
+      · exact Or.inr h.2
+  · rcases hs : f.stack with _ | ⟨a, _ | ⟨b, rest⟩⟩ <;> simp only [hs, List.length_cons, List.length_nil] at har <;> try omega
+    have hc := cover_two gas2 last (off := a) (l := b) hms
+      (by rw [hmem, he]; simp [expectedMem, memorySizeOf, hs])
+    simp only [execOp, hgs, hs]
+    split
+    · simp
+    · rename_i hr
+      exfalso
+      refine getPtr_ne_none _ _ _ ?_ hr
+      rw [hgm]; rcases hc.2 with h | h
+      · exact Or.inl h
+      · exact Or.inr h.2
+
+
+theorem memorySizeOf_ne_panic (e : Exec) (st : List Word) (har : arity e ≤ st.length) :
+    memorySizeOf (expectedMem e) st ≠ .panic := by
+  rcases hs : st with _ | ⟨a, _ | ⟨b, _ | ⟨c, rest⟩⟩⟩ <;>
+    cases e <;> simp only [hs, arity, List.length_cons, List.length_nil] at har <;>
+    (try omega) <;> simp [expectedMem, memorySizeOf]
+
+/-- **Under a consistent jump table the interpreter never reaches a Go run-time panic.** -/
+theorem step_no_goPanic (H : Bytes → Bytes) (t : Table) (p : GasParams) (f : Frame)
+    (ht : tableOK t = true) : step H t p f ≠ .fail .goPanic := by
+  intro h
+  obtain ⟨info, hget, hmin, hcase⟩ := step_goPanic_decomp h
+  have hok := slotOK_of_get ht hget
+  by_cases hoth : isOther info.exec = true
+  · rcases hcase with hp | ⟨gas2, last, ms, _, hex⟩
+    · rcases slotOK_other hok hoth with hm | ⟨n, hm⟩ <;> (rw [hm] at hp; simp [memorySizeOf] at hp)
+    · cases he : info.exec <;> simp [he, isOther] at hoth
+      rw [he] at hex; simp [execOp] at hex
+  · have hoth' : isOther info.exec = false := by
+      cases hh : isOther info.exec
+      · rfl
+      · exact absurd hh hoth
+    obtain ⟨har, hme, hd, hsw⟩ := slotOK_parts hok hoth'
+    rcases hcase with hp | ⟨gas2, last, ms, hms, hex⟩
+    · rw [hme] at hp
+      exact memorySizeOf_ne_panic info.exec f.stack (by omega) hp
+    · by_cases hnone : expectedMem info.exec = .none
+      · exact execOp_no_panic_simple H info.exec (preExec f gas2 last ms) hnone
+          (by simp only [preExec]; omega) hd hsw hex
+      · exact execOp_no_panic_mem H info f gas2 last ms hme hnone (by omega) hms hex
 
 end Rangers.Proofs.Evm10
